@@ -384,6 +384,94 @@ theorem merge_spec (hb : ∀ k, hash k < 2 ^ 32) {fuel : Nat} {a b d' : Dict K V
   simp only [Api.entries] at this m
   rw [this, List.mem_reverse, m]
 
+/-! ### histories: any sequence of insertions, replacements and removals -/
+
+/-- an updating operation of a history -/
+inductive Cmd (K V : Type) where
+  | put (k : K) (v : V)
+  | remove (k : K)
+
+/-- what the operation does to the trie … -/
+def Cmd.run (hash : K → Nat) (fuel : Nat) (d : Dict K V) : Cmd K V → Option (Dict K V)
+  | .put k v => Api.put hash fuel d k v
+  | .remove k => some (Api.remove hash d k)
+
+/-- … and what it means for a finite map -/
+def Cmd.denote (m : K → Option V) : Cmd K V → K → Option V
+  | .put k v => fun k' => if k' = k then some v else m k'
+  | .remove k => fun k' => if k' = k then none else m k'
+
+/-- run a whole history from a given dict -/
+def runHistory (hash : K → Nat) (fuel : Nat) : Dict K V → List (Cmd K V) → Option (Dict K V)
+  | d, [] => some d
+  | d, c :: cs => match c.run hash fuel d with
+    | none => none
+    | some d' => runHistory hash fuel d' cs
+
+theorem runHistory_spec (hb : ∀ k, hash k < 2 ^ 32) {fuel : Nat} :
+    ∀ (cs : List (Cmd K V)) {d d' : Dict K V}, Inv hash d → runHistory hash fuel d cs = some d' →
+      Inv hash d' ∧ toMap d' = cs.foldl Cmd.denote (toMap d) := by
+  intro cs
+  induction cs with
+  | nil => intro d d' h hr; simp only [runHistory, Option.some.injEq] at hr; subst hr; exact ⟨h, rfl⟩
+  | cons c cs ih =>
+    intro d d' h hr
+    simp only [runHistory] at hr
+    cases c with
+    | put k v =>
+      simp only [Cmd.run] at hr
+      cases hp : Api.put hash fuel d k v with
+      | none => simp [hp] at hr
+      | some d1 =>
+        simp only [hp] at hr
+        obtain ⟨w1, w2⟩ := ih (put_wf hb h hp) hr
+        refine ⟨w1, ?_⟩
+        rw [w2, List.foldl_cons]
+        congr 1
+        funext k'
+        exact put_spec hb h hp k'
+    | remove k =>
+      simp only [Cmd.run] at hr
+      obtain ⟨w1, w2⟩ := ih (remove_wf h k) hr
+      refine ⟨w1, ?_⟩
+      rw [w2, List.foldl_cons]
+      congr 1
+      funext k'
+      exact remove_spec h k k'
+
+/-- **the property, as stated**: after any sequence of insertions, replacements and removals
+starting from `new`, `get` returns for every key the value most recently stored and not since
+removed (`none` otherwise) — i.e. what the same sequence does to the empty finite map — and the
+invariant holds. For every hash function, every fuel that returns a result. -/
+theorem history_spec (hb : ∀ k, hash k < 2 ^ 32) {fuel : Nat} (cs : List (Cmd K V)) {d : Dict K V}
+    (hr : runHistory hash fuel (Api.new : Dict K V) cs = some d) (k : K) :
+    Inv hash d ∧ Api.get hash d k = cs.foldl Cmd.denote (fun _ => none) k := by
+  obtain ⟨w1, w2⟩ := runHistory_spec hb cs (new_wf (hash := hash) (V := V)) hr
+  refine ⟨w1, ?_⟩
+  rw [get_spec w1, w2]
+  have h0 : toMap (Api.new : Dict K V) = fun _ => none := by funext k; simp [toMap, Api.new]
+  rw [h0]
+
+/-- … and with fuel 8 every history does return a result -/
+theorem history_total (hb : ∀ k, hash k < 2 ^ 32) {fuel : Nat} (hfuel : 8 ≤ fuel) :
+    ∀ (cs : List (Cmd K V)) {d : Dict K V}, Inv hash d → (runHistory hash fuel d cs).isSome = true := by
+  intro cs
+  induction cs with
+  | nil => intro d _; simp [runHistory]
+  | cons c cs ih =>
+    intro d h
+    simp only [runHistory]
+    cases c with
+    | put k v =>
+      simp only [Cmd.run]
+      have := put_fuel_suffices hb h hfuel k v
+      cases hp : Api.put hash fuel d k v with
+      | none => simp [hp] at this
+      | some d1 => exact ih (put_wf hb h hp)
+    | remove k =>
+      simp only [Cmd.run]
+      exact ih (remove_wf h k)
+
 /-! ### canonical shape -/
 
 /-- **the shape of a dict depends only on its contents** (the module's own claim, comment above
@@ -539,5 +627,12 @@ example : Similar (Dict.collision 7 [(1, "a"), (2, "b")]) (Dict.collision 7 [(2,
         · have a : (k == 1) = false := by simpa using h1
           have b : (k == 2) = false := by simpa using h2
           simp [a, b])
+
+-- a history over colliding keys: put 1, put 2, replace 1, remove 2, put 3 — all in one bucket
+example : runHistory constHash 8 (Api.new : Dict Nat String)
+    [.put 1 "a", .put 2 "b", .put 1 "c", .remove 2, .put 3 "d"] =
+    some (Dict.collision 7 [(1, "c"), (3, "d")]) := by
+  simp [runHistory, Cmd.run, Api.put, Api.remove, Api.new, put, remove, splitPair, constHash,
+    bucketPut, bucketRemove, revcat]
 
 end C19
